@@ -3,7 +3,7 @@
    and compared with the loss values and the autograd .grad the real code produced.  Result 0 = agree. *)
 From Coq Require Import List ZArith QArith Qcanon Bool Arith.
 From RL4CO Require Import Base.OField Base.OFieldQc Base.OFieldExtraC16 Train.Baselines Train.Dual Train.Loss
-  Train.LossShared Train.LossPPO.
+  Train.LossShared Train.LossPPO Train.InvLoss.
 Import ListNotations.
 
 Definition TL := tmod_list QcF.
@@ -155,4 +155,20 @@ Definition check_ppo (c : Q * (Q * Q * Q * bool * Q) * list (Q * Q) * list (Q * 
                   end) then 2%Z
     else if negb (close_grads (toQc tol) 0%nat grads (dt (po_loss o))) then 5%Z
     else 0%Z
+  end.
+
+(* ------------------------------------------------------------------ symnco.losses.invariance_loss: the VALUE *)
+(* tol, eps (of cosine_similarity), num_augment, proj_embed rows [(b a)][node] = (embedding, its Euclidean norm),
+   (raised?, value returned).  7 = a supplied norm is wrong / the tensor is ragged (generator error),
+   1 = raise-vs-return differs, 8 = value differs *)
+Definition il_case : Type := (Q * Q * nat * list (list (list Q * Q)) * (bool * Q))%type.
+Definition check_invloss (c : il_case) : Z :=
+  match c with
+  | (tol, eps, A, rows, (raised, obs)) =>
+      let rq : list (list (nvec QcF)) := map (map (fun p : list Q * Q => (map toQc (fst p), toQc (snd p)))) rows in
+      if negb (inv_wfb rq) then 7%Z
+      else match inv_loss (K:=QcF) (toQc eps) A rq with
+           | None => if raised then 0%Z else 1%Z
+           | Some m => if raised then 1%Z else if close (toQc tol) (toQc obs) m then 0%Z else 8%Z
+           end
   end.
